@@ -122,9 +122,12 @@ impl LunarYear {
   pub fn get_months(&self) -> Vec<LunarMonth> {
     let mut l: Vec<LunarMonth> = Vec::new();
     let mut m: LunarMonth = LunarMonth::from_ym(self.year, 1);
-    while m.get_year() == self.year {
+    let n: usize = self.get_month_count();
+    for i in 0..n {
       l.push(m);
-      m = m.next(1);
+      if i + 1 < n {
+        m = m.next(1);
+      }
     }
     l
   }
